@@ -136,3 +136,37 @@ func ZZ_C13_block_witness() {
 	zzBlockWalk(2)
 	vpAssert(false, "witness")
 }
+
+// ---- restart array arithmetic for offsets of any 32-bit magnitude ----
+// (blocks larger than the bound cannot be built byte by byte, but the restart
+// array is read by restartIndex/restartOffset alone: its entries are free
+// 32-bit values here, so big blocks are covered for this arithmetic)
+func ZZ_C13_restartindex() {
+	n := 2 + vpChoose(3)
+	data := make([]byte, 4*n+4)
+	offs := make([]uint32, n)
+	for i := 0; i < n; i++ {
+		offs[i] = vpNondetU32()
+		if i == 0 {
+			vpAssume(offs[0] == 0) // the first restart point is the start of the block
+		} else {
+			vpAssume(offs[i-1] < offs[i])
+		}
+		binary.LittleEndian.PutUint32(data[4*i:], offs[i])
+	}
+	vpAssume(offs[n-1] < 1<<31)
+	binary.LittleEndian.PutUint32(data[4*n:], uint32(n))
+	b := &block{data: data, restartsLen: n, restartsOffset: 0}
+	for i := 0; i < n; i++ {
+		vpAssert(b.restartOffset(i) == int(offs[i]), "restart-offset-decoded")
+	}
+	off := int(vpNondetU32())
+	vpAssume(off < 1<<31)
+	r := b.restartIndex(0, n, off)
+	// r = index of the last restart point at or before off
+	want := -1
+	for i := 0; i < n; i++ {
+		want = vpIteInt(int(offs[i]) <= off, i, want)
+	}
+	vpAssert(r == want, "restart-index-is-last-restart-at-or-before-offset")
+}
